@@ -636,7 +636,8 @@ def _bool_table_lookup(ctx, inst, m, table):
             d = table_of(n.value.func.value)
             if d is not None:
                 tgt = norm(n.targets[0])
-                guard = [g for g in walk_own(m.node) if isinstance(g, ast.If) and norm(g.test) == '%s is None' % tgt and raises_in(g.body)]
+                from sa import condeq
+                guard = condeq.raising_guards(m.node, '%s is None' % tgt, raises_in, walk_own)
                 if not guard or any(v is None for v in d.values()):
                     d = None
         if d is not None:
